@@ -372,21 +372,42 @@ theorem C17_member_tally (env : Env Ext C Pm) (s : St Ext C Pm) (com : Committee
   simp only [result, hm, Bool.false_eq_true, ite_false, memberResult, Dec.le, Dec.ofInt]
   exact decide_eq_true_iff
 
-/-- the passing tally of a token committee: quorum first (total voted weight ≥ quorum · supply), then
-    threshold (yes ≥ threshold · (yes + no)); weights are the voters' balances at the time of tally -/
+/-- the passing tally of a token committee: quorum first (total voted weight ≥ quorum · supply), then at
+    least one yes or no weight counted, then threshold (yes ≥ threshold · (yes + no)); weights are the
+    voters' balances at the time of tally -/
 theorem C17_token_tally (env : Env Ext C Pm) (s : St Ext C Pm) (com : Committee Pm) (pid : Nat)
     (ht : com.token = true) :
     result env s com pid = true ↔
       (com.quorum.mul (Dec.ofInt (env.supply s.ext com.denom))).m
           ≤ sumBal env s.ext com.denom (votesFor s pid) * P ∧
+      0 < sumBal env s.ext com.denom ((votesFor s pid).filter (fun v => v.vt == .yes)) * P
+          + sumBal env s.ext com.denom ((votesFor s pid).filter (fun v => v.vt == .no)) * P ∧
       (((Dec.ofInt (sumBal env s.ext com.denom ((votesFor s pid).filter (fun v => v.vt == .yes)))).add
           (Dec.ofInt (sumBal env s.ext com.denom ((votesFor s pid).filter (fun v => v.vt == .no))))).mul com.threshold).m
           ≤ sumBal env s.ext com.denom ((votesFor s pid).filter (fun v => v.vt == .yes)) * P := by
-  simp only [result, ht, ite_true, tokenResult, Dec.le, Dec.ofInt]
+  simp only [result, ht, ite_true, tokenResult, Dec.le, Dec.ofInt, Dec.add]
   by_cases hq : (com.quorum.mul ⟨env.supply s.ext com.denom * P⟩).m ≤ sumBal env s.ext com.denom (votesFor s pid) * P
-  · simp only [hq, decide_true, ite_true, true_and]
-    exact decide_eq_true_iff
+  · simp only [hq, decide_true, ite_true, true_and, Bool.and_eq_true, decide_eq_true_eq]
+    exact and_congr decide_eq_true_iff decide_eq_true_iff
   · simp [hq]
+
+/-- "only on a passing tally": a token-committee tally in which no yes and no no weight was counted —
+    everybody abstained, or nobody voted and the quorum is zero — does not pass, whatever the threshold and
+    quorum are (repaired defect: the code compared `0 ≥ 0 · threshold` and enacted such proposals). -/
+theorem C17_token_tally_needs_votes (env : Env Ext C Pm) (s : St Ext C Pm) (com : Committee Pm) (pid : Nat)
+    (ht : com.token = true)
+    (h0 : sumBal env s.ext com.denom ((votesFor s pid).filter (fun v => v.vt == .yes))
+        + sumBal env s.ext com.denom ((votesFor s pid).filter (fun v => v.vt == .no)) = 0) :
+    result env s com pid = false := by
+  cases hr : result env s com pid with
+  | false => rfl
+  | true =>
+    have := ((C17_token_tally env s com pid ht).1 hr).2.1
+    have hP : (0 : Int) < P := by unfold P; decide
+    have : 0 < (sumBal env s.ext com.denom ((votesFor s pid).filter (fun v => v.vt == .yes))
+        + sumBal env s.ext com.denom ((votesFor s pid).filter (fun v => v.vt == .no))) * P := by
+      rw [Int.add_mul]; exact this
+    rw [h0] at this; simp at this
 
 /-- no operation other than the begin block enacts anything -/
 theorem C17_enact_only_by_begin_block (env : Env Ext C Pm) (s s' : St Ext C Pm) (op : Op Ext C Pm)
